@@ -89,7 +89,7 @@ def _build(case, divisor):
     clock = L.FakeClock()
     sync = case["stack"] == "sync"
     tk = dict(cuts=mk_cuts(case["cuts"]), on_empty=case.get("on_empty", "stall"), clock=clock, dts=case.get("dts", ()),
-              eof=case.get("eof", "raise"), budget=case.get("budget", 12))
+              eof=case.get("eof", "raise"), budget=case.get("budget", 12), err_at=case.get("err_at", ()))
     tcls = L.LoginSimTransport if sync else L.AsyncLoginSimTransport
     u, p, h = creds(case)
     if case.get("via") == "driver":
@@ -247,6 +247,15 @@ def expected(case):
         return "fail-now" if case["stack"] == "sync" else None
     if d.get("needs_kick", 0) and case.get("on_empty", "stall") != "empty":
         return None
+    if case.get("err_at"):
+        # transient connection errors: only the sync telnet loop survives them (it answers with a return, which a device at
+        # its password prompt takes as one more wrong password); what the property still fixes is the rejecting server that
+        # keeps prompting: at most two submissions, then ScrapliAuthenticationFailed
+        if not (fl == "telnet" and case["stack"] == "sync"):
+            return None
+        if B(case["creds"]["username"]) == B(d.get("username", "admin")) and B(case["creds"]["password"]) == B(d.get("password", "s3cret")):
+            return None
+        return "fail" if d.get("after_max", "close") == "reprompt" else None
     dev_u, dev_p, dev_h = B(d.get("username", "admin")), B(d.get("password", "s3cret")), d.get("passphrase")
     if fl == "telnet":
         if u == dev_u and p == dev_p:
